@@ -231,12 +231,25 @@ def create_table(
             else:
                 # A state with this kernel items already exists.
                 # LALR: Try to merge states, i.e. update items follow sets.
+                # If merging is refused there may be other states with the
+                # same kernel created by previous splits. Try those before
+                # splitting again, otherwise recursive grammars might
+                # produce new states forever.
                 if itemset_type is LR_1 and not merge_states(
                     target_state, maybe_new_state
                 ):
-                    target_state = maybe_new_state
-                    state_queue.append(target_state)
-                    state_id += 1
+                    for other_state in chain(states, state_queue):
+                        if (
+                            other_state is not target_state
+                            and other_state == maybe_new_state
+                            and merge_states(other_state, maybe_new_state)
+                        ):
+                            target_state = other_state
+                            break
+                    else:
+                        target_state = maybe_new_state
+                        state_queue.append(target_state)
+                        state_id += 1
 
             # Create entries in GOTO and ACTION tables
             if isinstance(symbol, NonTerminal):
